@@ -218,6 +218,10 @@ class Interp(object):
     }
 
     def tolerates_sym(self, f, args):
+        # BaseException.__new__ only stores its arguments (OSError.__new__, which parses them, is a different function)
+        if getattr(f, "__name__", None) == "__new__" and args and isinstance(args[0], type) and issubclass(args[0], BaseException) \
+                and not issubclass(args[0], (OSError, BaseExceptionGroup)) and "__new__" not in args[0].__dict__:
+            return True
         mod = getattr(f, "__module__", None) or ""
         if any(mod == p or mod.startswith(p + ".") for p in self.tolerant_prefixes):
             return True
